@@ -52,6 +52,17 @@ CLAIMS = {
               "homogeneous node times and the node value at nodes. The 3D weights form is tied by bit-exact "
               "correspondence on all 27 classes and checked by the oracle (bounds, homogeneous exactness, nodes, "
               "source cell) on TraveltimeGrid objects in interpreter and JIT mode.")),
+    "C12": dict(
+        category="proof", design_ref="DESIGN.md §8 C12, §5.1",
+        technique="index-safety obligations regenerated from the AST of every kernel and discharged by omega in Lean 4 (all shapes at once) + strict-index proxy runs of the real kernels",
+        text=("About a thousand Lean obligations, regenerated from /repo's AST on every run (one per integer subscript and "
+              "call context in the sweeps, source initialisation, gradient assembly, interpolators, ray tracers and parallel "
+              "wrappers), state 0 <= index < extent for symbolic (unbounded) shapes and are discharged by omega; facts are "
+              "derived from loop ranges, integer guards, early-return budget guards, local definitions and the call "
+              "contexts of sweep. A few data-dependent contracts (searchsorted range after the inside test, ttsgn values, "
+              "0 <= int(zsa) <= nz) are declared, not derived. The real kernels are run in interpreter mode under a "
+              "strict-index proxy (out-of-range and wrap-around negative indices) on 1-cell-thick models, boundary "
+              "sources/end points, both ray modes and exact step budgets; thorough adds NUMBA_BOUNDSCHECK=1 JIT runs.")),
 }
 
 WIP = "check not registered yet in this revision (model/theorems under construction); see DESIGN.md §8"
